@@ -252,6 +252,20 @@ func (g *lockGen) plan() *BlockPlan {
 		th := int64(r.Intn(4))
 		lk.UpdateThresholds = append(lk.UpdateThresholds, &goattypes.UpdateTokenThresholdRequest{Token: project.TokenAddrs[t-1], Threshold: big.NewInt(th)})
 		thresholds = append(thresholds, Ev{"t": t, "th": th})
+		for rare(2) && len(thresholds) < 3 { // several threshold updates in one batch, also ones that change nothing (in any position)
+			t2 := 1 + r.Intn(2)
+			for ti := range st.Tokens {
+				if st.Tokens[ti].Exists && rare(2) {
+					t2 = ti + 1
+				}
+			}
+			th2 := int64(r.Intn(4))
+			if rare(2) {
+				th2 = st.Thr[t2-1] // the value the token already has
+			}
+			lk.UpdateThresholds = append(lk.UpdateThresholds, &goattypes.UpdateTokenThresholdRequest{Token: project.TokenAddrs[t2-1], Threshold: big.NewInt(th2)})
+			thresholds = append(thresholds, Ev{"t": t2, "th": th2})
+		}
 	}
 	if rare(3) || len(existing) < 3 {
 		vi := r.Intn(g.nv)
